@@ -93,15 +93,33 @@ theorem C19_default_fresh (d : Dflt) (s : St) (v : Val) (h : (getDefault d s).1 
 
 /-! ### one parse -/
 
+theorem mergeKV_ids : ∀ (ks : List String) (xs : List Val) (acc : List String × List Val),
+    ∀ i ∈ mutIdsL (mergeKV ks xs acc).2, i ∈ mutIdsL xs ∨ i ∈ mutIdsL acc.2
+  | [], _, acc, i, h => by simp only [mergeKV] at h; exact Or.inr h
+  | _ :: _, [], acc, i, h => by simp only [mergeKV] at h; exact Or.inr h
+  | k :: ks, x :: xs, acc, i, h => by
+    simp only [mergeKV] at h
+    rcases mergeKV_ids ks xs _ i h with h' | h'
+    · left; simp only [mutIdsL, List.mem_append]; exact Or.inr h'
+    · rcases setKV_ids k x acc.1 acc.2 i h' with h'' | h''
+      · exact Or.inr h''
+      · left; simp only [mutIdsL, List.mem_append]; exact Or.inl h''
+
+/-- whatever the calling style (`Cls(**d)`, `Cls(d)`, `Cls.__from__(d)`, `Cls(d, **kw)`), the parser only sees
+objects the caller passed in -/
 theorem entriesOf_ids (input : Val) : ∀ v ∈ (entriesOf input).2, ∀ i ∈ v.mutIds, i ∈ input.mutIds := by
   intro v hv i hi
-  cases input with
-  | node j k ks xs =>
-    cases k <;> simp only [entriesOf] at hv <;> try (simp at hv)
-    exact mutIdsL_sub_node (mem_mutIdsL.mpr ⟨v, hv, hi⟩)
-  | none => simp [entriesOf] at hv
-  | int n => simp [entriesOf] at hv
-  | str x => simp [entriesOf] at hv
+  have hmem : i ∈ mutIdsL (entriesOf input).2 := mem_mutIdsL.mpr ⟨v, hv, hi⟩
+  unfold entriesOf at hmem
+  split at hmem
+  · exact mutIdsL_sub_node hmem
+  · rename_i j0 ks0 j1 ks xs j2 kks kxs
+    apply mutIdsL_sub_node
+    simp only [mutIdsL, List.mem_append, List.append_nil]
+    rcases mergeKV_ids ks xs (kks, kxs) i hmem with h | h
+    · exact Or.inl (mutIdsL_sub_node h)
+    · exact Or.inr (mutIdsL_sub_node h)
+  · simp [mutIdsL] at hmem
 
 /-- **The frame of a parse** (every target: Schema, DataClass, decorated function; every calling style;
 success or failure): the allocator only moves forward; every object written in place was allocated by
